@@ -589,6 +589,24 @@ def _all_fast(ctx: Ctx, keys):
     ctx.klass("all_fast_definitions", len(keys))
 
 
+def _long_payloads(ctx: Ctx, item):
+    """The longest payloads (200..223 bytes) of both proprietary fast-packet PGNs, frame by frame: the returned message carries every byte."""
+    pgn, fmt = item
+    for L in range(200, 224):
+        it = Interp(fmt)
+        payload = fp.header(pgn, L) + bytes([(L + 7 * j) % 251 or 1 for j in range(L - 2)])
+        src = 0 if pgn == 130816 else 2
+        ops = [{"op": "start", "stream": src, "payload": payload.hex(), "seq": L % 8, "pad": ""}]
+        n_frames = len(wire.segment(payload, 0))
+        ops += [{"op": "frame", "stream": src, "index": k, "how": "next"} for k in range(1, n_frames)]
+        ctx.count()
+        ctx.nontrivial_extra += 1
+        for op in ops:
+            for b, w in it.step(op):
+                ctx.report(b + "|long-payload", w + f" ({L}-byte payload)", {"ops": list(it.ops), "format": fmt})
+    ctx.klass("long_payload_sweep")
+
+
 def _clients(ctx: Ctx, item):
     """Two interleaved fast-packet messages (and a third behind them) arriving through the gateway client of the format, the byte stream
     cut at every byte / inside every packet / between the two marker bytes: the client delivers each message once, complete."""
@@ -607,6 +625,9 @@ def _clients(ctx: Ctx, item):
         if i < len(fb):
             order.append(render(msgs[1][0], fb[i]))
     order += [render(msgs[2][0], fr) for fr in fc]
+    if fmt == "usb":
+        # a few stray (marker-free) bytes on the serial line in front of the burst and inside it: they swallow nothing
+        order = [b"\x11\x22\x33"] + order[:3] + [b"\x01\x02\x03\x04\x05\x06\x07"] + order[3:]
     stream = b"".join(order)
     bounds, pos = [], 0
     for p in order[:-1]:
@@ -615,7 +636,7 @@ def _clients(ctx: Ctx, item):
     for name, cuts in (("whole", []), ("every-byte", list(range(1, len(stream)))), ("packet-boundaries", bounds), ("after-first-byte-of-each-packet", [b + 1 for b in [0] + bounds]),
                        ("mid-packet", [b + 7 for b in [0] + bounds]), ("every-3", list(range(3, len(stream), 3)))):
         got = aio.client_frames(fmt, stream, cuts=cuts)
-        exp = aio.reference_delivery(fmt, order)
+        exp = aio.reference_delivery(fmt, [p for p in order if fmt != "usb" or p[:2] == b"\xaa\x55"])
         ctx.count()
         ctx.nontrivial_extra += 1
         if got != exp or len(exp) != 3:
@@ -636,6 +657,7 @@ def run(ctx: Ctx):
     # the generated histories go through all three frame-level entry points in both tiers
     pmap(ctx, _machine_shard, [(("ebyte", "usb", "yd")[i % 3], n, steps) for i in range(16)])
     pmap(ctx, _clients, [(k,) for k in ("ebyte", "usb", "yd")])
+    pmap(ctx, _long_payloads, [(pgn, f) for pgn in (130816, 126720) for f in ("ebyte", "usb", "yd")])
     # bounded exhaustive family
     seqs = stream_sequences(1)
     if ctx.quick:
